@@ -5,7 +5,7 @@ from hypothesis import strategies as st
 
 from vf import faults, gen
 from vf.core import Clause, Property, Violation
-from vf.osk import call_kwargs, mk_model, mk_teams
+from vf.osk import call_kwargs, mk_model, mk_teams, model_for
 
 OPS = ["rate", "predict_win", "predict_draw", "predict_rank"]
 
@@ -18,9 +18,21 @@ def rating_snapshot(objs):
     return [(id(p), p.id, p.name, p.mu, p.sigma) for p in objs]
 
 
-def run_fault(model, op, teams_vals, kwargs, fault, foreign, kind):
+def alias(objs, al):
+    """al = [i1, j1, i2, j2] (taken modulo the shape): the rating object of slot (i1, j1) is ALSO placed in slot (i2, j2) - one player listed
+    twice, or shared by two teams.  Still a list of lists of the model's own rating objects."""
+    if al:
+        i1 = al[0] % len(objs)
+        j1 = al[1] % len(objs[i1])
+        i2 = al[2] % len(objs)
+        j2 = al[3] % len(objs[i2])
+        objs[i2][j2] = objs[i1][j1]
+    return objs
+
+
+def run_fault(model, op, teams_vals, kwargs, fault, foreign, kind, al=None):
     """-> (verdict, detail): verdict in {'rejected', 'accepted', 'wrong-exception:<T>', 'side-effect'}."""
-    objs = mk_teams(model, teams_vals)
+    objs = alias(mk_teams(model, teams_vals), al)
     flat = [p for t in objs for p in t]
     targ, kw, extra = faults.build(objs, kwargs, fault, foreign)
     flat += extra
@@ -51,7 +63,12 @@ def run_fault(model, op, teams_vals, kwargs, fault, foreign, kind):
 def check_c13(case, ctx):
     cfg, teams, call = case["cfg"], case["teams"], case["call"]
     kind = cfg["kind"]
-    model = mk_model(cfg)
+    model = model_for(cfg, call)  # possibly a model that has been through one call that did not complete normally (prelude)
+    al = case.get("alias")
+    if al:
+        ctx.label("aliased-rating-object")
+    if call.get("prelude"):
+        ctx.label("model-after-a-failed-call")
     foreign = faults.foreign_models()
     sizes = [len(t) for t in teams]
     sel = "ranks" if call.get("ranks") is not None else "scores" if call.get("scores") is not None else None
@@ -59,7 +76,7 @@ def check_c13(case, ctx):
         ctx.label(lab)
     # converse: the unfaulted call is accepted (all valid encodings: int, float, bool, zero, negative, unsorted, repeated)
     for op in OPS:
-        objs = mk_teams(model, teams)
+        objs = alias(mk_teams(model, teams), al)
         try:
             if op == "rate":
                 model.rate(objs, **call_kwargs(call))
@@ -73,7 +90,7 @@ def check_c13(case, ctx):
     for op in OPS:
         fl = faults.enumerate_faults(kind, sizes, sel, op=op)
         for fault in fl:
-            verdict, detail = run_fault(model, op, teams, call_kwargs(call), fault, foreign, kind)
+            verdict, detail = run_fault(model, op, teams, call_kwargs(call), fault, foreign, kind, al)
             ctx.called()
             total += 1
             if faults.depth(fault) >= 2 or fault["fault"].startswith("foreign:"):
@@ -140,7 +157,15 @@ def mutated_cases(draw):
     return g
 
 
-STRAT = gen.games(max_teams=5, max_size=3)
+@st.composite
+def fault_cases(draw):
+    g = draw(gen.games(max_teams=5, max_size=3))
+    if draw(st.integers(0, 3)) == 0:
+        g["alias"] = [draw(st.integers(0, 7)) for _ in range(4)]
+    return g
+
+
+STRAT = fault_cases()
 
 
 def fuzz_custom(ctx, seed, tier, shard, nshards, n):
